@@ -113,7 +113,7 @@ inductive Operand
   | arr0 (q : Rat)                          -- 0-d ndarray
   | arr1 (xs : List Rat)                    -- 1-d ndarray
   | arr2 (rows : List (List Rat))           -- 2-d ndarray (rectangular, ≥ 1 column)
-  | arrN (ndim : Nat)                       -- ndarray with ndim ≥ 3 (only its ndim matters)
+  | arrN (ndim len : Nat)                   -- ndarray with ndim ≥ 3 (only ndim and len() matter)
   | list1 (xs : List Rat)                   -- Python list of numbers
   | list2 (rows : List (List Rat))          -- nested (rectangular) list
   | scalar (e : Expr)                       -- scalar Expression
@@ -164,7 +164,7 @@ def Operand.asArrayOrList : Operand → Option ArrView
   | .arr0 q => some (.d0 q)
   | .arr1 xs | .list1 xs => some (.d1 xs)
   | .arr2 r | .list2 r => some (.d2 r)
-  | .arrN n => some (.dN n)
+  | .arrN n _ => some (.dN n)
   | _ => none
 
 def ArrView.ndim : ArrView → Nat
@@ -174,6 +174,7 @@ def ArrView.ndim : ArrView → Nat
 def Operand.len? : Operand → Option Nat
   | .arr1 xs | .list1 xs => some xs.length
   | .arr2 r | .list2 r => some r.length
+  | .arrN _ n => some n
   | .vvar v => some v.vars.length
   | .vexpr es => some es.length
   | .mvp q _ => some q.length
@@ -245,7 +246,7 @@ def vbinRight (n : Nat) : Operand → Except Err (List Expr)
   | .epow w k => if w.vars.length != n then .error .dimensionMismatch else .ok (epowElems w k)
   | .arr1 xs | .list1 xs =>
     if xs.length != n then .error .dimensionMismatch else .ok (xs.map cst)
-  | .arr0 _ | .arr2 _ | .list2 _ | .arrN _ => .error .wrongDimensionality
+  | .arr0 _ | .arr2 _ | .list2 _ | .arrN _ _ => .error .wrongDimensionality
   | .npNum _ | .scalar _ | .eun _ _ | .mvar _ | .mexpr _ => .error .invalidOperation
 
 /-- `_vector_binary_op(left, right, op)` → the elements of the resulting `VectorExpression` -/
@@ -262,7 +263,7 @@ def vectorReflectedOp (vector : VecLike) (other : Operand) (op : BinOp) : Except
   match other with
   | .arr1 xs | .list1 xs =>
     if xs.length != es.length then .error .dimensionMismatch else build (xs.map cst)
-  | .arr2 _ | .list2 _ | .arrN _ => .error .wrongDimensionality
+  | .arr2 _ | .list2 _ | .arrN _ _ => .error .wrongDimensionality
   | .pyNum q | .npNum q | .arr0 q => build (List.replicate es.length (cst q))
   | .scalar e => build (List.replicate es.length e)
   | _ => .error .outsideModel   -- `Constant(np.asarray(<optyx container>))`: never reached through an operator
@@ -351,7 +352,7 @@ def vecMatmul (self : Vec) (isVVar : Bool) (other : Operand) : Except Err Expr :
   | .vvar _ | .vexpr _ | .mvp _ _ => mkDot self other
   | .mvar _ => .error .invalidOperation      -- VectorVariable: explicit raise; VectorExpression: MatrixVariable.__rmatmul__ raises the same class
   | .arr1 xs | .list1 xs => mkLinComb xs self
-  | .arr0 _ | .arr2 _ | .list2 _ | .arrN _ => .error .wrongDimensionality
+  | .arr0 _ | .arr2 _ | .list2 _ | .arrN _ _ => .error .wrongDimensionality
   | .pyNum _ | .npNum _ | .scalar _ | .epow _ _ | .eun _ _ | .mexpr _ =>
     let _ := isVVar
     .error .typeError                        -- NotImplemented on both sides
@@ -365,7 +366,7 @@ def vecRmatmul (self : Vec) (isVVar : Bool) (other : Operand) : Except Err VecRe
   | .arr2 q | .list2 q =>
     if isVVar then (mkMVP q self).map fun p => VecResult.mvp p.1 p.2
     else .error .typeError                   -- VectorExpression.__rmatmul__ returns NotImplemented
-  | .arr0 _ | .arrN _ | .pyNum _ | .npNum _ | .scalar _ | .epow _ _ | .eun _ _ | .mexpr _ =>
+  | .arr0 _ | .arrN _ _ | .pyNum _ | .npNum _ | .scalar _ | .epow _ _ | .eun _ _ | .mexpr _ =>
     if isVVar then .error .wrongDimensionality else .error .typeError   -- np.asarray(other).ndim == 0
   | _ => .error .outsideModel
 
@@ -375,30 +376,27 @@ def vecNorm (v : Vec) (ord : Int) : Except Err Expr :=
 
 /-! ### `MatrixVariable` -/
 
-/-- the construction loop of `MatrixVariable.__init__` for one row, given the rows built so far -/
-def mkRow (name : String) (sym : Bool) (prev : List (List Var)) (i cols : Nat) (next : Nat) :
-    List Var × Nat :=
-  (List.range cols).foldl
-    (fun (acc : List Var × Nat) j =>
-      if sym && j < i then
-        (acc.1 ++ [((prev.getD j []).getD i default)], acc.2)
-      else
-        (acc.1 ++ [(⟨name ++ "[" ++ toString i ++ "," ++ toString j ++ "]", acc.2⟩ : Var)], acc.2 + 1))
-    ([], next)
+/-- the `Variable` that `MatrixVariable.__init__` creates at position `(i, j)`: its identity is
+    `base + i * cols + j` (one id per position; positions that reuse an object do not consume theirs) -/
+def freshEntry (name : String) (cols base i j : Nat) : Var :=
+  ⟨name ++ "[" ++ toString i ++ "," ++ toString j ++ "]", base + i * cols + j⟩
 
-/-- `MatrixVariable(name, rows, cols, symmetric=…)`; element oids from `base` in creation order,
-    then the matrix object -/
+/-- entry `(i, j)` of the grid built by the two nested loops of `MatrixVariable.__init__`.
+    For a symmetric matrix and `j < i` the loop appends `self._variables[j][i]`; row `j` is complete by
+    then and its column `i > j` holds the variable created there, so the back-reference is written out. -/
+def matEntry (name : String) (sym : Bool) (cols base i j : Nat) : Var :=
+  if sym && j < i then freshEntry name cols base j i else freshEntry name cols base i j
+
+/-- `MatrixVariable(name, rows, cols, symmetric=…)`; the matrix object gets the id after all positions -/
 def mkMatrix (name : String) (rows cols : Int) (sym : Bool) (base : Nat) : Except Err (MatV × Nat) :=
   if rows ≤ 0 then .error .invalidSize
   else if cols ≤ 0 then .error .invalidSize
   else if sym && rows != cols then .error .squareMatrix
   else
-    let (grid, next) := (List.range rows.toNat).foldl
-      (fun (acc : List (List Var) × Nat) i =>
-        let (row, nx) := mkRow name sym acc.1 i cols.toNat acc.2
-        (acc.1 ++ [row], nx))
-      ([], base)
-    .ok (⟨name, next, grid, sym, false⟩, next + 1)
+    let r := rows.toNat
+    let c := cols.toNat
+    let grid := (List.range r).map fun i => (List.range c).map fun j => matEntry name sym c base i j
+    .ok (⟨name, base + r * c, grid, sym, false⟩, base + r * c + 1)
 
 /-- `[[g[j][i] for j in range(rows)] for i in range(cols)]` -/
 def transposeGrid {α} [Inhabited α] (g : List (List α)) : List (List α) :=
@@ -415,21 +413,23 @@ def matFromVariables (name : String) (grid : List (List Var)) (oid : Nat) : MatV
 
 inductive MItem | var (x : Var) | vec (v : VVar) | mat (m : MatV)
 
+/-- "Handle negative indices": an integer key is normalised and range-checked, a slice is left alone -/
+def normKey (n : Nat) : Key → Except Err Key
+  | .int k =>
+    match normIndex n k with
+    | .ok i => .ok (.int (i : Int))
+    | .error e => .error e
+  | k => .ok k
+
 /-- `MatrixVariable.__getitem__`; `tupleOfTwo = false` models a key that is not a 2-tuple -/
 def matGetItem (m : MatV) (tupleOfTwo : Bool) (rk ck : Key) (oid : Nat) : Except Err MItem :=
   if !tupleOfTwo then .error .invalidOperation
   else
-    -- "Handle negative indices": row first, then column
-    let rk' : Except Err Key := match rk with
-      | .int k => (normIndex m.nrows k).map fun i => Key.int i
-      | k => .ok k
-    match rk' with
+    -- row first, then column
+    match normKey m.nrows rk with
     | .error e => .error e
     | .ok rk =>
-    let ck' : Except Err Key := match ck with
-      | .int k => (normIndex m.ncols k).map fun j => Key.int j
-      | k => .ok k
-    match ck' with
+    match normKey m.ncols ck with
     | .error e => .error e
     | .ok ck =>
     match rk, ck with
@@ -524,7 +524,7 @@ def mbinRight (shape : Nat × Nat) : Operand → Except Err (List (List Expr))
   | .mexpr g => if gridShape g != shape then .error .dimensionMismatch else .ok g
   | .arr2 g | .list2 g =>
     if gridShape g != shape then .error .dimensionMismatch else .ok (g.map fun row => row.map cst)
-  | .arr0 _ | .arr1 _ | .list1 _ | .arrN _ => .error .dimensionMismatch   -- `right.shape != (rows, cols)`
+  | .arr0 _ | .arr1 _ | .list1 _ | .arrN _ _ => .error .dimensionMismatch   -- `right.shape != (rows, cols)`
   | .npNum _ | .scalar _ | .vvar _ | .vexpr _ | .mvp _ _ | .epow _ _ | .eun _ _ => .error .invalidOperation
 
 /-- `_matrix_binary_op(left, right, op)` -/
@@ -542,19 +542,19 @@ def matrixRsub (self : MatLike) (other : Operand) : Except Err (List (List Expr)
   | .arr2 g =>
     if gridShape g != gridShape es then .error .dimensionMismatch
     else mkMExpr (zipGrid .sub (g.map fun row => row.map cst) es)
-  | .arr0 _ | .arr1 _ | .arrN _ => .error .dimensionMismatch
+  | .arr0 _ | .arr1 _ | .arrN _ _ => .error .dimensionMismatch
   | _ => .error .invalidOperation
 
 /-- `__rtruediv__` (`other / self`) -/
 def matrixRdiv (self : MatLike) (other : Operand) : Except Err (List (List Expr)) :=
   let es := self.elems
   match other with
-  | .arr2 g =>
+  | .arr2 g | .list2 g =>            -- lists / tuples are `np.asarray`-ed first
     if gridShape g != gridShape es then .error .dimensionMismatch
     else mkMExpr (zipGrid .div (g.map fun row => row.map cst) es)
-  | .arr1 _ | .arrN _ => .error .dimensionMismatch
+  | .arr1 _ | .list1 _ | .arrN _ _ => .error .dimensionMismatch
   | .pyNum q | .npNum q | .arr0 q => mkMExpr (es.map fun row => row.map fun e => Expr.bin .div (cst q) e)
-  | _ => .error .outsideModel      -- `Constant(<list | optyx object>)` per element
+  | _ => .error .outsideModel      -- `Constant(<optyx object>)` per element
 
 def matrixNeg (self : MatLike) : Except Err (List (List Expr)) :=
   mkMExpr (self.elems.map fun row => row.map fun e => Expr.un .neg e)
@@ -598,22 +598,20 @@ structure NewVar where
   lb : Option Rat
   ub : Option Rat
 
-/-- `diag_matrix(vector)`: diagonal = the vector's own elements, off-diagonal = fresh variables
-    `_diag_{name}[i,j]` with `lb = ub = 0`; oids from `base` in creation order, then the matrix -/
+/-- entry `(i, j)` of `diag_matrix(vector)`: the vector's own element on the diagonal, a fresh
+    `Variable("_diag_{name}[i,j]", lb=0.0, ub=0.0)` (identity `base + i * n + j`) elsewhere -/
+def diagEntry (v : VVar) (base i j : Nat) : Var :=
+  if i == j then v.vars.getD i default
+  else ⟨"_diag_" ++ v.name ++ "[" ++ toString i ++ "," ++ toString j ++ "]", base + i * v.vars.length + j⟩
+
+/-- `diag_matrix(vector)`: the matrix, the variables it creates (row-major, each with bounds (0, 0)),
+    and the next free object id -/
 def diagMatrix (v : VVar) (base : Nat) : MatV × List NewVar × Nat :=
   let n := v.vars.length
-  let (grid, news, next) := (List.range n).foldl
-    (fun (acc : List (List Var) × List NewVar × Nat) i =>
-      let (row, nw, nx) := (List.range n).foldl
-        (fun (r : List Var × List NewVar × Nat) j =>
-          if i == j then (r.1 ++ [v.vars.getD i default], r.2.1, r.2.2)
-          else
-            let x : Var := ⟨"_diag_" ++ v.name ++ "[" ++ toString i ++ "," ++ toString j ++ "]", r.2.2⟩
-            (r.1 ++ [x], r.2.1 ++ [⟨x, some 0, some 0⟩], r.2.2 + 1))
-        ([], acc.2.1, acc.2.2)
-      (acc.1 ++ [row], nw, nx))
-    ([], [], base)
-  (matFromVariables ("diag(" ++ v.name ++ ")") grid next, news, next + 1)
+  let grid := (List.range n).map fun i => (List.range n).map fun j => diagEntry v base i j
+  let news := (List.range n).flatMap fun i =>
+    ((List.range n).filter (fun j => i != j)).map fun j => (⟨diagEntry v base i j, some 0, some 0⟩ : NewVar)
+  (matFromVariables ("diag(" ++ v.name ++ ")") grid (base + n * n), news, base + n * n + 1)
 
 /-- `FrobeniusNorm(matrix)` -/
 def frobenius (m : MatV) : Expr := .frob m.toMVar
@@ -706,6 +704,15 @@ def matmul (l r : Operand) : Except Err MatmulResult :=
     | .mvp q v => (vecRmatmul (vecOf (mvpElems q v)) false l).map conv
     | .mvar m => (matRmatmul m l).map MatmulResult.vexpr
     | .mexpr _ => .error .typeError
-    | _ => .error .outsideModel
+    | _ =>
+      -- neither operand is a vector / matrix variable class: NumPy's own matmul if an ndarray
+      -- meets a scalar `Expression` (0-d object operand → ValueError), `TypeError` otherwise
+      let isArr (o : Operand) : Bool := match o with
+        | .arr0 _ | .arr1 _ | .arr2 _ | .arrN _ _ => true | _ => false
+      let isExprNode (o : Operand) : Bool := match o with
+        | .scalar _ | .epow _ _ | .eun _ _ => true | _ => false
+      if (isArr l && isExprNode r) || (isExprNode l && isArr r) then .error .valueError
+      else if isArr l && isArr r then .error .outsideModel     -- plain NumPy
+      else .error .typeError
 
 end Optyx.Py.Api
